@@ -4,6 +4,7 @@ Decided (see DESIGN.md C01): D1 table agreement, D2 format agreement, D3 size
 agreement, D4 chunk/size consistency, D5 pad-before-dispatch, D6 array
 accounting, D7 traversal/threading.  Not decided: value equality.
 """
+import ast
 import struct
 
 from .. import spec
@@ -545,8 +546,103 @@ def variant_rules(ctx, cm, rule5, rule7, le, rule_spec=None):
                nontrivial=False)
 
 
+def _limit_tests(prog, fi):
+    """[(direction, bound, lineno)] for every `if <x> OP <int>: ... raise`
+    of fi: the values REFUSED are those above (`gt`) / below (`lt`) the bound.
+    Module constants are folded; only bounds of at least 8 count as limits
+    (smaller ones are structural tests: emptiness, arity)."""
+    from .c03 import module_const
+    out = []
+
+    def const_of(e):
+        if isinstance(e, ast.Constant) and isinstance(e.value, int) and \
+                not isinstance(e.value, bool):
+            return e.value
+        if isinstance(e, ast.Name):
+            try:
+                t = module_const(prog, fi.module.name, e.id)
+            except Exception:
+                t = None
+            if t is not None and is_const(t) and isinstance(t[1], int) \
+                    and not isinstance(t[1], bool):
+                return t[1]
+        if isinstance(e, ast.BinOp) and isinstance(e.op, ast.Pow):
+            a, b = const_of(e.left), const_of(e.right)
+            if a is not None and b is not None and 0 <= b < 64:
+                return a ** b
+        return None
+    for n in ast.walk(fi.node):
+        if not isinstance(n, ast.If):
+            continue
+        if not any(isinstance(x, ast.Raise) for st in n.body
+                   for x in ast.walk(st)):
+            continue
+        for c in ast.walk(n.test):
+            if not (isinstance(c, ast.Compare) and len(c.ops) == 1):
+                continue
+            l, r = c.left, c.comparators[0]
+            op = type(c.ops[0])
+            kl, kr = const_of(l), const_of(r)
+            if kr is not None and kl is None:
+                k = kr
+            elif kl is not None and kr is None:
+                k = kl
+                op = {ast.Gt: ast.Lt, ast.Lt: ast.Gt, ast.GtE: ast.LtE,
+                      ast.LtE: ast.GtE}.get(op, op)
+            else:
+                continue
+            if op is ast.Gt:
+                d = ('gt', k)
+            elif op is ast.GtE:
+                d = ('gt', k - 1)
+            elif op is ast.Lt:
+                d = ('lt', k)
+            elif op is ast.LtE:
+                d = ('lt', k + 1)
+            else:
+                continue
+            if abs(d[1]) >= 8:
+                out.append((d[0], d[1], n.lineno))
+    return out
+
+
+def limits_agree(ctx, cm, rule):
+    """A size / depth / count limit that only the DECODER enforces makes
+    values the encoder accepts undecodable: every `if x > LIMIT: raise` in
+    the functions the decoder runs has the same refusal somewhere in the
+    functions the encoder runs."""
+    from .. import callgraph as CG
+    prog = ctx.prog
+    enc_roots = [prog.func('marshal.marshal')] + list(cm.enc.values())
+    dec_roots = [prog.func('marshal.unmarshal')] + list(cm.dec.values())
+    enc = CG.reachable(prog, enc_roots, within=('marshal',))
+    dec = CG.reachable(prog, dec_roots, within=('marshal',))
+    enc_limits = {(d, k) for fi in enc.values()
+                  for d, k, _ in _limit_tests(prog, fi)}
+    n = 0
+    for q, fi in sorted(dec.items()):
+        for d, k, line in _limit_tests(prog, fi):
+            n += 1
+            ctx.ob(rule, q, 'decoder-limit-is-an-encoder-limit:%s:%d'
+                   % (d, k), (d, k) in enc_limits,
+                   'the decoder refuses values %s %d (line %d) but nothing '
+                   'the encoder runs refuses them: a value that encodes '
+                   'does not decode' % (
+                       'above' if d == 'gt' else 'below', k, line))
+    ctx.ob(rule, 'marshal', 'decoder-limits-scanned', True,
+           '%d limit test(s) in %d decoder function(s); %d encoder '
+           'function(s)' % (n, len(dec), len(enc)), nontrivial=False)
+    ctx.extra['limits'] = {'decoder_functions': len(dec),
+                           'encoder_functions': len(enc),
+                           'decoder_limit_tests': n}
+    if len(dec) < 10 or len(enc) < 10:
+        raise AnalysisError('codec families not resolved (%d encoder, %d '
+                            'decoder functions)' % (len(enc), len(dec)))
+
+
 def run(ctx):
     cm = CodecModel(ctx.prog)
+    limits_agree(ctx, cm, 'C01.D5')
     R.r_tables(ctx, cm, 'C01.D1')
     R.r_fixed(ctx, cm, 'C01.D2', 'C01.D3', None)
     R.r_stringlike(ctx, cm, 'C01.D3', None)
